@@ -1,4 +1,5 @@
 import Girc.Proofs.SimCor
+import Girc.Proofs.SimWire
 /- C04 — tracked state equals what a conformant server's message history implies. Property theorems only. -/
 namespace Girc.Props.C04
 open Girc Girc.Model Girc.Spec
@@ -15,6 +16,17 @@ theorem refinement (cfg : Cfg) (hT : cfg.disableTracking = false) (es : List Eve
     (hc : conformantHistory cfg {} es = true) :
     ∃ cs, runEvents cfg {} es = .ok cs ∧ observe cs.st = (Ref.run cfg es).observe :=
   Proofs.SimMain.refinement cfg hT es hc
+
+/-- The same at the WIRE level: the received lines are parsed by the parser of C02, handled one at a
+    time, locally injected events (only ever local ERRORs) are processed after the event that injected
+    them; for every history of lines that parse to a conformant history of events, as long as nothing
+    has ended the connection (no ERROR, no unparsable line, no requested close) what the state API
+    shows equals the reference model's observation. -/
+theorem refinement_wire (cfg : Cfg) (hT : cfg.disableTracking = false) (lines : List Bytes) (es : List Event)
+    (hp : lines.map parseEvent = es.map some) (hc : conformantHistory cfg {} es = true)
+    (r : Run) (hr : runLines cfg {} lines = .ok r) (hrun : r.ended = .running) :
+    observe r.cs.st = (Ref.run cfg es).observe :=
+  Proofs.SimWire.refinement_wire cfg hT lines es hp hc r hr hrun
 
 /-- One step, from any related pair of states (the inductive core; `Sim` is extensional equality of
     everything tracked, stated in Spec/Sim.lean). -/
